@@ -108,6 +108,12 @@ class VY(PaneBase):
     a: str = ''
 
 
+class VNone(PaneBase):
+    """a variant whose tag is None"""
+    t: None = None
+    a: int = 0
+
+
 class PN(PaneBase):
     """nested dataclass + container of dataclasses"""
     p: P1
@@ -177,6 +183,12 @@ TYPES = {
 
 TYPES['union_tag_dict'] = t.Union[TYPES['tag_int'], t.Dict[str, int]]
 # a tagged union as a member of another union keeps its own layout
+# a struct inside a struct (a child error that has only missing / unexpected keys), a container of a three-way union,
+# an internally tagged union with a None-tagged variant
+TYPES['struct_nested'] = {'p': {'a': int, 'b': t.Optional[str]}, 'n': int}
+TYPES['list_union3'] = t.List[t.Union[int, str, None]]
+TYPES['dict_union3'] = t.Dict[str, t.Annotated[t.Union[int, str, None], Condition(lambda v: v != 13, 'not 13')]]
+TYPES['tag_int_none'] = t.Annotated[t.Union[VX, VNone], Tagged('t')]
 # keys that are themselves sequences
 TYPES['dict_fskey'] = t.Dict[t.FrozenSet[int], int]
 TYPES['dict_tupkey'] = t.Dict[t.Tuple[int, t.FrozenSet[int]], str]
@@ -209,18 +221,18 @@ VOCAB = {
     'pal': ('a_b', 'aB', 'ab'), 'range': ('start', 'end', 'n'), 'pn': ('p', 'q', 'zz'), 'pi': ('x', 'n', 'scale'),
     'tag_int': ('t', 'a', 'zz'), 'tag_ext': ('x', 'y', 'zz'), 'tag_adj': ('t', 'c', 'zz'),
     'dict_si': ('a', 'b', ''), 'counter': ('a', 'b', ''), 'picky': ('a', 'b', ''), 'union_tag_dict': ('t', 'a', 'zz'),
-    'opt_tag_ext': ('x', 'y', 'zz'), 'union_tag_adj': ('t', 'c', 'zz'),
+    'opt_tag_ext': ('x', 'y', 'zz'), 'union_tag_adj': ('t', 'c', 'zz'), 'struct_nested': ('p', 'n', 'zz'), 'tag_int_none': ('t', 'a', 'zz'),
 }
 
 # which shape group can reach acceptance (default A) / rejection (default A); None = not in the generic domain
 ACC = {'tuple_fix': 'B', 'tuple_lit': 'B', 'range': None, 'tag_adj': None, 'tag_ext': None, 'struct': 'C', 'pn': None,
-       'pt': 'A', 'cond_set': 'B', 'tuple_struct': None, 'opt_tag_ext': 'A', 'union_tag_adj': 'A'}
+       'pt': 'A', 'cond_set': 'B', 'tuple_struct': None, 'opt_tag_ext': 'A', 'union_tag_adj': 'A', 'struct_nested': None, 'tag_int_none': None}
 REJ = {'any': None}
 MAPPISH = {'any', 'dict_si', 'dict_if', 'counter', 'ddict', 'struct', 'union', 'p1', 'p2', 'ph', 'pal', 'range', 'dict_p2',
-           'tag_int', 'tag_ext', 'tag_adj', 'vol', 'picky', 'pn', 'pi', 'union_tag_dict', 'opt_vol', 'opt_tag_ext', 'union_tag_adj', 'dict_fskey', 'dict_tupkey'}
+           'tag_int', 'tag_ext', 'tag_adj', 'vol', 'picky', 'pn', 'pi', 'union_tag_dict', 'opt_vol', 'opt_tag_ext', 'union_tag_adj', 'dict_fskey', 'dict_tupkey', 'struct_nested', 'tag_int_none', 'dict_union3'}
 SEQISH = {'any', 'list_int', 'seq_any', 'set_int', 'tuple_var', 'tuple_fix', 'tuple_lit', 'union', 'opt_list', 'vol',
           'cond_len', 'cond_nested', 'nested', 'nested_ragged', 'p2', 'ph', 'range', 'list_p1', 'union_ctor', 'lit', 'str',
-          'pt', 'pi', 'cond_set', 'opt_vol', 'tuple_struct', 'list_enum_im'}
+          'pt', 'pi', 'cond_set', 'opt_vol', 'tuple_struct', 'list_enum_im', 'list_union3'}
 TEXT = {'date', 'pattern', 'decimal', 'fraction'}      # text parsed by stdlib C/regex code: concretised vocabulary (td_text)
 # converters whose target constructor realises a symbolic int (complex(), int subclass __new__, float()): small ints
 SMALLINT = {'complex', 'cond_rng', 'range', 'myint', 'delegate', 'strsub', 'cond_set'}
@@ -426,6 +438,16 @@ def b_seqkey(n, ka, ia, sa, ib, two, nest):
     return d
 
 
+def b_struct_nested(pp, pa, ka, ia, sa, pb, kb, ib, sb, pe, pn):
+    """{'p': {a?, b?, zz?}, 'n'?}: the inner struct may have only a missing / unexpected key as its defect"""
+    d = {}
+    if pp:
+        d['p'] = b_struct2(pa, ka, ia, sa, pb, kb, ib, sb, pe)
+    if pn:
+        d['n'] = 1
+    return d
+
+
 def b_pal(y1, y2, ka, ia, sa, bk):
     """PAl (rename='camel', aliases): one or two keys naming a_b chosen from its candidate names, plus field b"""
     d = {}
@@ -548,6 +570,10 @@ TD = {
                       "1 <= tk <= 8 and 0 <= bk <= 2 and 0 <= ka <= 5 and 0 <= shape <= 4 and "
                       "((shape == 0 and tk <= 2) or (bk == 0 and not ha and not he))",
                       "b_tag_adj(tk, bk, ha, ka, ia, sa, he, shape)", (0, -1)),
+    'struct_nested': ('struct_nested', "pp: bool, pa: bool, ka: int, ia: int, sa: str, pb: bool, kb: int, ib: int, sb: str, pe: bool, pn: bool",
+                      "0 <= ka <= 5 and 0 <= kb <= 2", "b_struct_nested(pp, pa, ka, ia, sa, pb, kb, ib, sb, pe, pn)", (0, -1)),
+    'tag_int_none': ('tag_int_none', "tk: int, ha: bool, ka: int, ia: int, sa: str, he: bool",
+                     "0 <= tk <= 8 and 0 <= ka <= 5", "b_tag_int(tk, ha, ka, ia, sa, he)", (0, -1)),
     'dict_fskey': ('dict_fskey', "n: int, ka: int, ia: int, sa: str, ib: int, two: bool",
                    "0 <= n <= 3 and 0 <= ka <= 5 and -1 <= ia <= 1 and -1 <= ib <= 1", "b_seqkey(n, ka, ia, sa, ib, two, False)", (0, -1)),
     'dict_tupkey': ('dict_tupkey', "n: int, ka: int, ia: int, sa: str, ib: int, two: bool",
@@ -693,6 +719,49 @@ def check_generic_history(first, second, with_tree=False):
     return 0
 
 
+def alias_pair(k):
+    """two builtin aliases that compare equal but order a nested union differently (new objects on every call: PEP 585
+    aliases are not interned), the data to convert and the image under each"""
+    import fractions
+    if k == 0:
+        return list[t.Union[int, float]], list[t.Union[float, int]], [1, 2], [1, 2], [1.0, 2.0]
+    elif k == 1:
+        return (dict[str, t.Union[int, float, None]], dict[str, t.Union[float, int, None]], {'k': 1, 'n': None}, {'k': 1, 'n': None},
+                {'k': 1.0, 'n': None})
+    elif k == 2:
+        return (tuple[t.Union[str, fractions.Fraction], ...], tuple[t.Union[fractions.Fraction, str], ...], ['1/2'], ('1/2',),
+                (fractions.Fraction(1, 2),))
+    elif k == 3:
+        return list[list[t.Union[bool, int]]], list[list[t.Union[int, bool]]], [[True, 1]], [[True, 1]], [[1, 1]]
+    elif k == 4:
+        return (dict[str, list[t.Union[int, str]]], dict[str, list[t.Union[str, int]]], {'k': [1, 'a']}, {'k': [1, 'a']}, {'k': [1, 'a']})
+    elif k == 5:
+        # tuple TYPE LITERALS: equal and hashable, yet not interchangeable
+        return ((t.Union[int, float], str), (t.Union[float, int], str), [1, 'a'], (1, 'a'), (1.0, 'a'))
+    elif k == 6:
+        return (((t.Union[int, float], int), str), ((t.Union[float, int], int), str), [[1, 2], 'a'], ((1, 2), 'a'), ((1.0, 2), 'a'))
+    else:
+        return ({'a': t.Union[int, float]}, {'a': t.Union[float, int]}, {'a': 1}, {'a': 1}, {'a': 1.0})
+
+
+
+def alias_history(k, first):
+    """convert through two equal-comparing but differently ordered types, twice, in the given order: 0 ok, 4 wrong image, 7 raised"""
+    (Ta, Tb, data, wa, wb) = alias_pair(k)
+    order = ((Ta, wa), (Tb, wb)) if first == 0 else ((Tb, wb), (Ta, wa))
+    for rnd in range(2):
+        for (T, want) in order:
+            try:
+                r = pane.from_data(data, T)
+            except Exception as e:
+                if hlib.crosshair_exc(e):
+                    raise
+                return 7
+            if not hlib.eqv(r, want):
+                return 4
+    return 0
+
+
 def warm(fn):
     """Run fn(name, sample) concretely over every converter and sample (DESIGN.md 2.1 rule 2); best effort."""
     for name in CONVS:
@@ -706,5 +775,5 @@ def warm(fn):
 def export(ns):
     """Names the generated bodies need in the harness module's namespace."""
     for k in ('obligation', 'gv', 'gvf', 'lf', 'lf3', 'b_tag_int', 'b_tag_ext', 'b_tag_adj', 'b_range', 'b_seq', 'b_struct2',
-              'b_pal', 'b_nested', 'b_pn', 'b_text', 'b_range_seq', 'b_numtext', 'b_seqkey'):
+              'b_pal', 'b_nested', 'b_pn', 'b_text', 'b_range_seq', 'b_numtext', 'b_seqkey', 'b_struct_nested'):
         ns[k] = globals()[k]
